@@ -645,10 +645,15 @@ def evaluate__idiv_operator(self: XPathToken, context: ta.ContextType = None) ->
         raise self.error('XPST0005')
 
     try:
-        if math.isinf(op1):
+        if isinstance(op1, float) and math.isinf(op1):
             raise self.error('FOAR0001' if op2 == 0 else 'FOAR0002')
-        elif math.isnan(op1) or math.isnan(op2):
+        elif isinstance(op1, float) and math.isnan(op1) or \
+                isinstance(op2, float) and math.isnan(op2):
             raise self.error('FOAR0002')
+        elif not isinstance(op1, (int, float, Decimal)) or \
+                not isinstance(op2, (int, float, Decimal)):
+            raise TypeError("unsupported operand type(s) for idiv: "
+                            "{!r} and {!r}".format(type(op1), type(op2)))
     except TypeError as err:
         if isinstance(context, XPathSchemaContext):
             return 1
